@@ -1012,7 +1012,7 @@ func runC12Prop(seed uint64, tier string, out string) error {
 	rep := newReport("C12", seed, tier)
 	n, nExh := 28, 5
 	if tier == "thorough" {
-		n, nExh = 1200, 1200
+		n, nExh = 240, 60 // an exhaustive stream costs 10-25 CPU seconds (every byte offset is a load attempt)
 	}
 	cases := []string{}
 	index := []interface{}{}
@@ -1104,7 +1104,7 @@ func runC12Prop(seed uint64, tier string, out string) error {
 	rep.Cases = len(cases)
 	rep.DistinctNontrivial = len(distinct)
 	rep.Exhaustive = false
-	rep.Rule = "generated knowledge bases (random typed rule sets of 1-7 rules in one or several resources; templates with every atom / variable / expression form, every constant kind incl. extreme integers, denormal floats and strings imitating snapshot syntax, method-mutated facts announced with Changed/Forget, map and slice elements; varied names, versions, descriptions, distinct saliences incl. int32 extremes); each is stored, loaded, stored and loaded again; non-trivial = at least two rules, distinct by rule text; quick cuts the streams of the first 5 knowledge bases <= 14 kB (thorough: all <= 24 kB) at every byte and the others at every field boundary (+-1) and 200 random offsets; every Write call index is made to fail"
+	rep.Rule = "generated knowledge bases (random typed rule sets of 1-7 rules in one or several resources; templates with every atom / variable / expression form, every constant kind incl. extreme integers, denormal floats and strings imitating snapshot syntax, method-mutated facts announced with Changed/Forget, map and slice elements; varied names, versions, descriptions, distinct saliences incl. int32 extremes); each is stored, loaded, stored and loaded again; non-trivial = at least two rules, distinct by rule text; quick cuts the streams of the first 5 knowledge bases <= 14 kB (thorough: the first 60 <= 24 kB) at every byte and the others at every field boundary (+-1) and 200 random offsets; every Write call index is made to fail"
 	if err := writeShardsBySize(out, "From Grule Require Import Base Values Syntax CodecPrim Codec Catalog CorrCodec.", "c12_mismatches", "c12_case", cases, 16); err != nil {
 		return err
 	}
